@@ -1,6 +1,7 @@
 package dns
 
 import (
+	"encoding/base32"
 	"encoding/base64"
 	"errors"
 	"fmt"
@@ -1078,7 +1079,7 @@ func (rr *NSEC3) parse(c *zlexer, o string) *ParseError {
 	if l.token == "" || l.err {
 		return &ParseError{err: "bad NSEC3 NextDomain", lex: l}
 	}
-	rr.HashLength = 20 // Fix for NSEC3 (sha1 160 bits)
+	rr.HashLength = uint8(base32.HexEncoding.WithPadding(base32.NoPadding).DecodedLen(len(l.token))) // 20 for sha1 (160 bits)
 	rr.NextDomain = l.token
 
 	rr.TypeBitMap = make([]uint16, 0)
